@@ -697,6 +697,15 @@ func (d *Document) addHeaderReference(headerType HeaderFooterType, headerID stri
 		sectPr.XmlnsR = "http://schemas.openxmlformats.org/officeDocument/2006/relationships"
 	}
 
+	// 同一类型的页眉只保留一个引用：替换已有引用并移除其旧关系
+	for _, ref := range sectPr.HeaderReferences {
+		if ref.Type == string(headerType) {
+			d.removeDocumentRelationship(ref.ID)
+			ref.ID = headerID
+			return
+		}
+	}
+
 	headerRef := &HeaderFooterReference{
 		Type: string(headerType),
 		ID:   headerID,
@@ -714,12 +723,32 @@ func (d *Document) addFooterReference(footerType HeaderFooterType, footerID stri
 		sectPr.XmlnsR = "http://schemas.openxmlformats.org/officeDocument/2006/relationships"
 	}
 
+	// 同一类型的页脚只保留一个引用：替换已有引用并移除其旧关系
+	for _, ref := range sectPr.FooterReferences {
+		if ref.Type == string(footerType) {
+			d.removeDocumentRelationship(ref.ID)
+			ref.ID = footerID
+			return
+		}
+	}
+
 	footerRef := &FooterReference{
 		Type: string(footerType),
 		ID:   footerID,
 	}
 
 	sectPr.FooterReferences = append(sectPr.FooterReferences, footerRef)
+}
+
+// removeDocumentRelationship 移除指定ID的文档关系
+func (d *Document) removeDocumentRelationship(id string) {
+	rels := d.documentRelationships.Relationships
+	for i, rel := range rels {
+		if rel.ID == id {
+			d.documentRelationships.Relationships = append(rels[:i:i], rels[i+1:]...)
+			return
+		}
+	}
 }
 
 // getSectionPropertiesForHeaderFooter 获取或创建带页眉页脚支持的节属性
